@@ -246,6 +246,9 @@ def run(ctx):
     long_lengths(ctx)
     from tools import worldcheck
     worldcheck.logging_independence(ctx, 'C03')
+    from tools import c04
+    pbad = c04.player_definitions(ctx)        # the types a PARSE decodes with are those of the directory the version selects (sibling builds in one process)
+    if pbad: ctx.violation(pbad)
     recordings.payload_check(ctx, 'C03', quick_n=3)
     if first_corr and not ctx.violations:
         # the model no longer describes the code: search was the full generator budget above
